@@ -3,7 +3,7 @@ import re
 
 from hypothesis import strategies as st
 
-from ..common import BOM, crash_signature, digest, grammar, has_error, short
+from ..common import maybe_disturb, BOM, crash_signature, digest, grammar, has_error, short
 from ..engine import Outcome, Prop
 from ..gen import text as T
 
@@ -97,6 +97,7 @@ class C01(Prop):
     def check(self, case):
         code, v, kind = case['code'], case['version'], case['input']
         g = grammar(v)
+        maybe_disturb(g, code, v)      # process history: an unfinished earlier call must not matter
         expected = code
         try:
             if kind in ('bytes+latin-1', 'bytes+cp1252') and not _CODING.search(first_two_lines(code)):
